@@ -466,7 +466,11 @@ pub mod verif_hooks {
   pub fn resolve_char(opt: &Option<i32>, dft: i32, len: i32) -> usize {
     super::resolve_char(opt, dft, len)
   }
-  pub fn substring(source: &str, start_char: Option<i32>, end_char: Option<i32>) -> Transformation<String> {
+  pub fn substring(
+    source: &str,
+    start_char: Option<i32>,
+    end_char: Option<i32>,
+  ) -> Transformation<String> {
     Transformation::Substring(Substring {
       source: source.to_string(),
       start_char,
@@ -480,7 +484,11 @@ pub mod verif_hooks {
       by: by.to_string(),
     })
   }
-  pub fn rewrite(source: &str, rewriters: Vec<String>, join_by: Option<String>) -> Transformation<String> {
+  pub fn rewrite(
+    source: &str,
+    rewriters: Vec<String>,
+    join_by: Option<String>,
+  ) -> Transformation<String> {
     Transformation::Rewrite(Rewrite {
       source: source.to_string(),
       rewriters,
